@@ -290,8 +290,38 @@ def _short_ops(case):
 
 # --------------------------------------------------------------------------------------------------------------
 # targeted streams: the members where operands are most at risk (views of the operand inside the body)
-def targeted(rng, n):
+def unit_powers(rng):
+    """exhaustive small grid (not random draws): every way of raising a unit-carrying operand / a shared Units
+    constant to a power, with the exponents at which shortcuts are tempting (0, 1 in every numeric guise, 2, -1, 1/2)"""
     out = []
+    expos = [py(1), py(1.0), {'k': 'npf', 'v': 1.0}, py(2), py(2.0), py(0), py(0.5), py(-1), py(3),
+             {'k': 'q', 'cls': 'Scalar', 'shape': [], 'numer': [], 'seed': 1, 'dtype': 'int', 'style': 'one'}]
+    for u in ['KM', 'SECONDS', 'DEG', 'CM', 'UNITLESS', 'RAD']:
+        for e in expos[:9]:
+            out.append(finish({'type': 'call', 'cls': 'Units', 'name': 'units_power', 'how': 'static', 'owner': 'Units',
+                               'ops': [None, {'k': 'units', 'name': u}, e], 'kw': {}}))
+            out.append(finish({'type': 'call', 'cls': 'Units', 'name': '__pow__', 'how': 'method', 'owner': 'Units',
+                               'ops': [{'k': 'units', 'name': u}, e], 'kw': {}}))
+        out.append(finish({'type': 'call', 'cls': 'Units', 'name': 'sqrt_units', 'how': 'static', 'owner': 'Units',
+                           'ops': [None, {'k': 'units', 'name': u}], 'kw': {}}))
+        for with_derivs in (False, True):
+            for shape in ([], [3]):
+                a = {'k': 'q', 'cls': 'Scalar', 'shape': shape, 'numer': [], 'seed': rng.randrange(1 << 20),
+                     'dtype': 'float', 'mask': 'F', 'units': u, 'style': 'pos'}
+                if with_derivs:
+                    a['derivs'] = {'t': {'k': 'q', 'cls': 'Scalar', 'shape': shape, 'numer': [],
+                                         'seed': rng.randrange(1 << 20), 'dtype': 'float', 'mask': 'F'}}
+                for e in expos:
+                    out.append(finish({'type': 'call', 'cls': 'Scalar', 'name': '__pow__', 'how': 'method',
+                                       'owner': 'Scalar', 'ops': [a, e], 'kw': {}}))
+                for nm in ('sqrt', 'reciprocal', '__abs__', 'sign'):
+                    out.append(finish({'type': 'call', 'cls': 'Scalar', 'name': nm, 'how': 'method', 'owner': 'Scalar',
+                                       'ops': [a], 'kw': {}}))
+    return out
+
+
+def targeted(rng, n):
+    out = unit_powers(rng)
     for _ in range(n):
         m = Mx = q(rng, 'Matrix', numer=rng.choice([[2, 2], [3, 3]]), singular=rng.random() < 0.7,
                    shape=rng.choice([[], [2], [3], [2, 2]]))
